@@ -23,6 +23,10 @@
 //              analytic CDF (independent long double code below) in sup norm.  The Urban model is
 //              judged stage by stage (each branch of sample_fast_urban / sample_excitation_loss /
 //              sample_ionization_loss whose law is explicit) given the constructor's outputs.
+//              Letters added by the dimension review (d2): Tsai-Urban with the muon (E=100) and
+//              proton (E=1) masses (umax 3.89 / 2.002, truncation inside the bulk); Normal
+//              move-assign / move-construct FROM an object holding a spare (law + draw pattern);
+//              sample_fast_urban at the exact tie sd == 4 mean (Gaussian branch, draw pattern).
 //              threshold = L + H + 2/N,
 //                L = sum_j c_j / 2^b_j   lattice term: a set whose boundary consists of c_j
 //                                        coordinate-monotone pieces meets at most c_j*N/2^b_j
@@ -1724,6 +1728,63 @@ static std::vector<QuadCase> build_quad_cases(ElossWorld& W, bool thorough)
                      [=](double x) { return Phi((ld(x) - 100) / 2); });
     });
 
+    // (d2) the SOURCE of the move holds a spare and the target does not: the target takes the
+    // source's parameters AND its spare (x ~ N(5,0.1), the second member of the pair, no new
+    // canonical), and the source loses it (its next call draws a new pair)
+    for (int ctor = 0; ctor < 2; ++ctor)
+        add("normal", ctor ? "move-construct-from-spare-holder->N(5,0.1)" : "move-assign-from-spare-holder->N(5,0.1)",
+            [=](Quad& Q) {
+                uint64_t bad = 0;
+                uint64_t* pbad = &bad;
+                Q.continuous(L2, bm2,
+                             [=](Eng& e) {
+                                 NormalDistribution<double> a(5, 0.1);
+                                 (void)a(e);
+                                 double x;
+                                 if (ctor)
+                                 {
+                                     NormalDistribution<double> d(std::move(a));
+                                     x = d(e);
+                                 }
+                                 else
+                                 {
+                                     NormalDistribution<double> d(100, 2);
+                                     d = std::move(a);
+                                     x = d(e);
+                                 }
+                                 if (e.canonicals() != 2)
+                                     ++*pbad;
+                                 return x;
+                             },
+                             [=](double x) { return Phi((ld(x) - 5) / 0.1L); });
+                // draw pattern of the moved-from source and of the target afterwards
+                std::vector<uint32_t> sc(2);
+                for (uint64_t idx = 0; idx < 64; ++idx)
+                {
+                    L2.script(idx * (L2.size() / 64), sc);
+                    Eng e(sc, mix64(Q.seed() + idx), 0u);
+                    NormalDistribution<double> a(5, 0.1);
+                    (void)a(e);
+                    NormalDistribution<double> d1(ctor ? std::move(a) : NormalDistribution<double>(100, 2));
+                    if (!ctor)
+                        d1 = std::move(a);
+                    (void)d1(e);
+                    uint64_t c1 = e.canonicals();
+                    (void)a(e);  // moved-from: no spare any more
+                    uint64_t c2 = e.canonicals();
+                    (void)d1(e);  // target: spare used up
+                    uint64_t c3 = e.canonicals();
+                    if (c1 != 2 || c2 != 4 || c3 != 6)
+                        ++bad;
+                }
+                if (bad)
+                    Q.R.violation("quad:normal:move-spare-draw-pattern", Q.cid,
+                                  fmt("%llu scripts: moving a NormalDistribution that holds a spare must hand the spare "
+                                      "over exactly once (target: 0 new canonicals, then source: 2, then target: 2)",
+                                      (unsigned long long)bad));
+                Q.R.tag("quad:normal:moved-spare");
+            });
+
     //// Isotropic: marginals of cos(theta) and phi, and their joint law on an 8 x 8 grid ////
     add("isotropic", "unit-sphere", [=](Quad& Q) {
         uint64_t const N = L2.size();
@@ -1865,13 +1926,23 @@ static std::vector<QuadCase> build_quad_cases(ElossWorld& W, bool thorough)
     });
 
     //// Tsai-Urban: u = -a ln(u1 u2), a = 1.6 w.p. 1/4, 1.6/3 w.p. 3/4, truncated at umax ////
-    for (double E : {1e-3, 1.0, 100.0})
-        add("tsaiurban", fmt("E=%g,m=0.511", E), [=](Quad& Q) {
+    // (d2) the mass is a letter too: muon (umax = 3.89) and proton (umax = 2.002) masses move the
+    // truncation point into the bulk of the law (acceptance 0.92 / 0.76), so that a umax computed
+    // from any other mass than the one passed is a different CDF
+    for (auto Em : std::vector<std::pair<double, double>>{{1e-3, 0.5109989461},
+                                                          {1.0, 0.5109989461},
+                                                          {100.0, 0.5109989461},
+                                                          {100.0, 105.6583745},
+                                                          {1.0, 938.272081}})
+        add("tsaiurban",
+            Em.second < 1 ? fmt("E=%g,m=0.511", Em.first) : fmt("E=%g,m=%g", Em.first, Em.second),
+            [=](Quad& Q) {
+            double const E = Em.first;
             // third canonical: only (u3 < 1/4) matters and the 2-bit midpoints {1/8,..,7/8} split
             // exactly 1:3, so that axis contributes no lattice error; each of the two slabs is a
             // set monotone in u1 and u2
             Lattice L3{{h - 1, h - 1, 2}};
-            double m = 0.5109989461;
+            double m = Em.second;
             ld umax = 2 * (1 + ld(E) / m);
             auto G2 = [](ld u, ld s) { return 1 - (1 + u / s) * expl(-u / s); };
             auto Fu = [=](ld u) { return 0.25L * G2(u, 1.6L) + 0.75L * G2(u, 1.6L / 3); };
@@ -2073,6 +2144,28 @@ static std::vector<QuadCase> build_quad_cases(ElossWorld& W, bool thorough)
                     Q.R.tag("quad:urban-stage:fast-gaussian");
                 });
             }
+            // (d2) the tie sd == 4 mean (4 * 1.0 == 4.0 exactly) belongs to the truncated normal
+            // (source: `stddev <= 4 * mean`).  The two laws differ by ~2e-3 only, so the deciding claim
+            // is the draw pattern: Box-Muller pairs (an even number >= 2), the uniform branch draws 1
+            add("eloss-urban", "stage:fast:mean=1,sd=4 (tie sd == 4 mean: truncated normal)", [=](Quad& Q) {
+                TN g{1.0, 4.0};
+                uint64_t bad = 0;
+                uint64_t* pbad = &bad;
+                Q.continuous(L2, bm2,
+                             [=](Eng& e) {
+                                 double x = EnergyLossUrbanDistribution::sample_fast_urban(1.0, 4.0, e);
+                                 if (e.canonicals() < 2 || e.canonicals() % 2)
+                                     ++*pbad;
+                                 return x;
+                             },
+                             [=](double x) { return g.G(x); }, 1, true);
+                if (bad)
+                    Q.R.violation("quad:eloss-urban:fast-tie-branch", Q.cid,
+                                  fmt("%llu lattice points: sample_fast_urban(1, 4) did not draw whole Box-Muller "
+                                      "pairs (sd == 4 mean is documented / coded as the Gaussian branch)",
+                                      (unsigned long long)bad));
+                Q.R.tag("quad:urban-stage:fast-tie");
+            });
             add("eloss-urban", "stage:fast:mean=1,sd=4.5 (uniform on (0,2 mean))", [=](Quad& Q) {
                 Q.continuous(L1, mono1,
                              [=](Eng& e) { return EnergyLossUrbanDistribution::sample_fast_urban(1.0, 4.5, e); },
@@ -2293,6 +2386,76 @@ static std::vector<QuadCase> build_quad_cases(ElossWorld& W, bool thorough)
                                                   (unsigned long long)acc, (unsigned long long)N, (unsigned long long)below));
                     Q.R.count("evaluations", N);
                     Q.R.tag("quad:urban-stage:ion-fast:gaussian-median");
+                    Q.R.nontrivial(vf::hash_str(Q.cid));
+                });
+                // (d2) the energy of ONE individually sampled collision where alpha != 1 (in the Poisson-only
+                // cases above alpha == 1, where alpha E0 == E0 and alpha/R == 1/R).  Explicit words, lower word 0:
+                //   1,2  normal pair at (1/2,1/2): z = r sin(pi) ~ 1e-16, Gaussian part == its mean, accepted
+                //   3    u = 1/2:  1/2 > exp(-lam)  (checked: lam > ln 2)  -> the Poisson loop continues
+                //   4    u = 2^-13: 2^-14 <= exp(-lam) (lam < 8 < 14 ln 2) -> exactly ONE collision
+                //   5    the 2^b1 lattice midpoints: y = alpha E0 / U(alpha/R, 1), monotone in u5
+                // y = x - g0 with g0 the sample of the no-collision script {1/2, 1/2, 2^-32}; law
+                //   F(y) = (1 - alpha E0/y) / (1 - alpha E0/Tmax) on [alpha E0, Tmax], alpha from PHYS332 Eq. 25.
+                add("eloss-urban", fmt("stage:ionisation:fast:%s:single-collision-spectrum above alpha E0", io.second), [=](Quad& Q) {
+                    EnergyLossUrbanDistribution d = make(u);
+                    ld lam, mlow;
+                    ref(d, &lam, &mlow);
+                    ld const e0 = 1e-5L, tmax = d.max_energy_, R = tmax / e0, n3 = d.xs_ion_;
+                    ld const alpha = (n3 + 8) * R / (8 * R + n3);
+                    if (!(d.xs_ion_ > 8 && lam > 0.7L && lam < 8 && alpha > 1.5L && alpha * e0 < tmax))
+                    {
+                        Q.R.harness_error(fmt("%s: xs_ion=%g lam=%Lg alpha=%Lg: not a fast-regime single-collision set-up",
+                                              Q.cid.c_str(), d.xs_ion_, lam, alpha));
+                        return;
+                    }
+                    double g0;
+                    {
+                        Eng e({0x80000000u, 0x80000000u, 0x00000001u}, mix64(Q.seed()), 0u);
+                        g0 = d.sample_ionization_loss(e);
+                        if (e.canonicals() != 3)
+                        {
+                            Q.R.harness_error(fmt("%s: the no-collision script drew %llu canonicals", Q.cid.c_str(),
+                                                  (unsigned long long)e.canonicals()));
+                            return;
+                        }
+                    }
+                    uint64_t const N = L1.size();
+                    std::vector<double> ys;
+                    ys.reserve(N);
+                    std::vector<uint32_t> sc(1);
+                    uint64_t badc = 0;
+                    for (uint64_t idx = 0; idx < N; ++idx)
+                    {
+                        L1.script(idx, sc);
+                        Eng e({0x80000000u, 0x80000000u, 0x80000000u, 0x00080000u, sc[0]}, mix64(Q.seed() + idx), 0u);
+                        double x = d.sample_ionization_loss(e);
+                        if (e.canonicals() != 5)
+                            ++badc;
+                        ys.push_back(x - g0);
+                    }
+                    if (badc)
+                    {
+                        Q.R.violation("quad:eloss-urban:fast-ionisation-draw-pattern", Q.cid,
+                                      fmt("%llu of %llu scripts did not consume exactly 5 canonicals (normal pair, two Poisson "
+                                          "uniforms 1/2 and 2^-13 -> one collision, one energy fraction); lambda = %Lg",
+                                          (unsigned long long)badc, (unsigned long long)N, lam));
+                        return;
+                    }
+                    ld const ae0 = alpha * e0;
+                    double dist = ks_sup(ys,
+                                         [=](double y) {
+                                             if (y <= ae0)
+                                                 return ld(0);
+                                             if (y >= tmax)
+                                                 return ld(1);
+                                             return (1 - ae0 / ld(y)) / (1 - ae0 / tmax);
+                                         },
+                                         1);
+                    Q.judge("cdf of the collision energy (x - Gaussian part)", dist, L1.lterm(mono1), 0, N);
+                    Q.R.note("info:" + Q.cid, fmt("alpha=%Lg alpha*E0=%Lg Tmax=%Lg lambda=%Lg g0=%g min y=%g max y=%g", alpha, ae0,
+                                                  tmax, lam, g0, ys.front(), ys.back()));
+                    Q.R.count("evaluations", N);
+                    Q.R.tag("quad:urban-stage:ion-fast:single-collision");
                     Q.R.nontrivial(vf::hash_str(Q.cid));
                 });
             }
